@@ -113,3 +113,92 @@ def make_dataset(Dataset, shape, values, errors, kinds=('C', 'C'), dtypes=None, 
     if mask is not None and shape:
         dset = dset.mask(np.array(mask, dtype=bool).reshape(shape))
     return dset
+
+
+# --------------------------------------------------------------------------
+# round 7: numeric types of the scalar arguments (ndf, alpha) are presentations too
+
+NDF_TYPES = ['int', 'int64', 'int32', 'int16', 'uint8', 'intp', 'float', 'float64', 'float32', 'array0', 'farray0', 'bool']
+ALPHA_TYPES = ['float', 'float64', 'float32', 'array0']
+
+
+def scalar(value, typ):
+    '''the number `value` as an object of the given numeric type (None stays None); falls back to the
+    plain Python number when the type cannot hold the value exactly'''
+    if value is None or not typ or typ in ('int', 'float') and not isinstance(value, bool):
+        if typ == 'float' and value is not None:
+            return float(value)
+        return value
+    if typ == 'bool':
+        return True if value == 1 else value
+    if typ == 'array0':
+        return np.array(value)
+    if typ == 'farray0':
+        return np.array(float(value))
+    obj = np.dtype(typ).type(value)
+    return obj if float(obj) == float(value) else value
+
+
+def pick_ndf_type(rng, ndf):
+    if ndf is None or rng.random() < 0.5:
+        return 'int'
+    typ = rng.choice(NDF_TYPES[1:])
+    if typ == 'uint8' and ndf > 255 or typ == 'int16' and ndf > 32767 or typ == 'bool' and ndf != 1 \
+            or typ == 'float32' and ndf > 2 ** 24:
+        return 'int64'
+    return typ
+
+
+# --------------------------------------------------------------------------
+# round 7: in-place edits of the input arrays between two evaluations
+
+def writable_datasets(Dataset, case, unbits, rng):
+    '''datasets of a float, unmasked, non-scalar case built on WRITABLE arrays; the error array of one
+    dataset is a slice of a larger parent array.  Returns (datasets, parent, index of its dataset)'''
+    shape = tuple(case['shape'])
+    lay = case.get('layouts') or []
+    owner = rng.randrange(len(case['datasets']))
+    dsets, parent = [], None
+    for k, (v, e) in enumerate(case['datasets']):
+        kv, ke = lay[k] if k < len(lay) else ('C', 'C')
+        kv, ke = [x if x in ('C', 'F', 'P', 'S', 'N') else 'C' for x in (kv, ke)]
+        val = np.array(apply(np.array([unbits(b) for b in v], dtype=float).reshape(shape), kv), copy=False)
+        err = apply(np.array([unbits(b) for b in e], dtype=float).reshape(shape), ke)
+        if k == owner:
+            parent = np.full(shape[:-1] + (shape[-1] + 2,), 9.0)
+            parent[..., 1:-1] = err
+            err = parent[..., 1:-1]
+        if not val.flags.writeable:
+            val = val.copy()
+        dsets.append(Dataset(val, err))
+    return dsets, parent, owner
+
+
+def edit_in_place(dsets, parent, owner, rng):
+    '''one in-place edit of an input array; returns its description'''
+    k = rng.randrange(len(dsets))
+    dset = dsets[k]
+    err = np.asarray(dset.error)
+    fin = err[np.isfinite(err) & (err > 0)]
+    typical = float(np.median(fin)) if fin.size else 1.0
+    op = rng.choice(['scale', 'item', 'fillzeros', 'value_add', 'parent', 'scale', 'item'])
+    if op == 'fillzeros' and not np.any(err == 0):
+        op = 'scale'
+    if op == 'scale':
+        dset.error *= 2.5
+    elif op == 'item':
+        idx = tuple(rng.randrange(n) for n in err.shape)
+        dset.error[idx] = rng.choice([0.3 * typical, 3.1 * typical, 0.0])
+    elif op == 'fillzeros':
+        dset.error[dset.error == 0] = 0.7 * typical
+    elif op == 'value_add':
+        dset.value += 0.9 * typical
+    else:
+        k = owner
+        parent[..., 1] = 1.9 * typical          # write through the parent of the error view
+    return f'{op} on dataset {k}'
+
+
+def current_numbers(dsets, bits):
+    return [[[bits(x) for x in np.asarray(d.value, dtype=float).reshape(-1)],
+             [bits(x) for x in np.asarray(d.error, dtype=float).reshape(-1)]] for d in dsets]
